@@ -1,8 +1,73 @@
-(* C20 — data transforms round-trip and never read outside their input (under construction) *)
-From Coq Require Import ZArith List Bool.
+(* C20 — data transforms round-trip and never read outside their input.
+
+   FULL STATEMENT (properties.jsonl): for every byte string, encoding it with dispatch_data_create_with_transform to
+   Base32, Base32Hex or Base64 and decoding the result returns the original bytes, and converting well-formed UTF-8
+   to UTF-16 (either byte order) and back returns the original text (apart from a leading byte-order mark),
+   independent of how the input is fragmented into regions; for arbitrary input a transform either returns NULL or
+   returns data that the inverse transform accepts, and it never reads or writes outside the memory of its input and
+   output objects.
+
+   PROVED HERE (hence the suffix _partial): the Base64 instance of every clause, at full strength, about
+   Model/Transform.v (the model of the repaired transform.c): all byte strings, all splits of the encoder's input AND
+   all splits of the decoder's input, through the format check of dispatch_data_create_with_transform.
+   MISSING: the same theorems for Base32/Base32Hex (same proof shape: 8 digits per 5 bytes, pad counts 1/3/4/6) and for
+   UTF-8 <-> UTF-16LE/BE (read-ahead/skip invariant).  Those parts of the model are covered by the correspondence
+   run only (lib/props/c20.py): exact agreement with the library, library-side round trips, AddressSanitizer. *)
+From Coq Require Import ZArith List Bool Lia.
 From Verif Require Import Word Transform Transform_proofs.
 Import ListNotations.
 Local Open Scope Z_scope.
 
-Example C20_nonvacuous : show (transform [[65]] F_NONE F_BASE64) = [0; 81; 81; 61; 61].
-Proof. exact smoke_b64. Qed.
+(* every byte string (wf_data: no empty region, bytes, size < 2^60), every split of it (d is any region list), and
+   every split d' of the encoded text: encode never fails, its result is the RFC 4648 text of the concatenation
+   (so it does not depend on the split), and decoding any split of that text gives back the bytes *)
+Theorem C20_base64_roundtrip_all_splits_partial : forall d, wf_data d ->
+  exists e, transform d F_NONE F_BASE64 = Ok e /\ flat e = b64_spec (flat d) /\
+    forall d', flat d' = flat e -> dsize d' < 2 ^ 60 ->
+      flat_res (transform d' F_BASE64 F_NONE) = Ok (flat d).
+Proof. exact base64_roundtrip_all_splits. Qed.
+Print Assumptions C20_base64_roundtrip_all_splits_partial.
+
+(* arbitrary input to the Base64 decoder, arbitrary split: the answer (NULL or bytes) is a function of the
+   concatenation only; no access outside the buffers (the OOB outcome of the model is unreachable); whatever is
+   returned is accepted by the inverse transform *)
+Theorem C20_base64_decode_total_partial : forall d, wf_data d ->
+  flat_res (transform d F_BASE64 F_NONE) = (if dsize d =? 0 then Ok (flat d) else dec64_flat (flat d)) /\
+  (forall site, transform d F_BASE64 F_NONE <> OOB site) /\
+  (forall t, transform d F_BASE64 F_NONE = Ok t -> Forall (fun r => r <> []) t -> dsize t < 2 ^ 60 ->
+             exists e, transform t F_NONE F_BASE64 = Ok e).
+Proof. exact base64_decode_total. Qed.
+Print Assumptions C20_base64_decode_total_partial.
+
+(* split independence and memory safety of the encoder proper (every look-back map, table read and write of the
+   model succeeds: the result is Ok) *)
+Theorem C20_base64_encode_split_independent_partial : forall d,
+  Forall (fun r => r <> []) d -> dsize d < 2 ^ 62 -> to_base64 d = Ok (data_create (b64_spec (flat d))).
+Proof. exact to_base64_flat. Qed.
+Print Assumptions C20_base64_encode_split_independent_partial.
+
+(* the flat round trip for every byte string *)
+Theorem C20_base64_flat_roundtrip_partial : forall s, bytes s -> dec64_flat (b64_spec s) = Ok s.
+Proof. exact roundtrip64_flat. Qed.
+Print Assumptions C20_base64_flat_roundtrip_partial.
+
+(* hypotheses are satisfiable on a non-trivial state: "Man" split 1|2 encodes to "TWFu"; "TWFu" split 1|2|1 decodes
+   to "Man"; and the repaired defects behave: "QQ" "=" "=" decodes to "A", "=" alone to nothing *)
+Example C20_nonvacuous :
+  wf_data [[77]; [97; 110]] /\
+  show (transform [[77]; [97; 110]] F_NONE F_BASE64) = [0; 84; 87; 70; 117] /\
+  show (transform [[84]; [87; 70]; [117]] F_BASE64 F_NONE) = [0; 77; 97; 110] /\
+  show (transform [[81; 81]; [61]; [61]] F_BASE64 F_NONE) = [0; 65] /\
+  show (transform [[61]] F_BASE64 F_NONE) = [0] /\
+  show (transform [[67; 52; 61; 61; 61; 61]; [61; 61]] F_BASE32HEX F_NONE) = [0; 97] /\
+  show (transform [[195]; [169; 226]; [130; 172]] F_UTF8 F_UTF16LE) = [0; 255; 254; 233; 0; 172; 32] /\
+  show (transform [[61; 216; 0]; [220]] F_UTF16LE F_UTF8) = [0; 240; 159; 144; 128] /\
+  show (transform [[237; 191; 191]] F_UTF8 F_UTF16LE) = [1].
+Proof.
+  split.
+  { unfold wf_data. split; [|split].
+    - repeat (apply Forall_cons; [discriminate|]). apply Forall_nil.
+    - unfold bytes. cbn [flat concat app]. repeat (apply Forall_cons; [unfold byte; lia|]). apply Forall_nil.
+    - vm_compute. reflexivity. }
+  repeat split; vm_compute; reflexivity.
+Qed.
